@@ -57,6 +57,8 @@ func verifBase() *Config {
 	cfg.RPM.Group = verifWord("base.group", 2)
 	cfg.RPM.Summary = verifWord("base.summary", 2)
 	cfg.Deb.Fields = map[string]string{"A": verifWord("base.field", 1)}
+	baseKey := verifWord("base.keyid", 2)
+	cfg.Deb.Signature.KeyID = &baseKey
 	cfg.Contents = files.Contents{
 		{Source: "s0", Destination: "/all"},
 		{Source: "s1", Destination: "/debonly", Packager: "deb"},
@@ -97,6 +99,11 @@ func Verif_C13_GetOverride() {
 	od.Deb.Compression = oComp
 	oUmask := v.NondetU32("ov.umask")
 	od.Umask = fsMode(oUmask)
+	// reference-typed overridables: a custom-field map and a key-id pointer
+	oField := verifWord("ov.field", 1)
+	od.Deb.Fields = map[string]string{"B": oField}
+	oKey := verifWord("ov.keyid", 2)
+	od.Deb.Signature.KeyID = &oKey
 	// an override block of another format must not matter
 	orpm := &Overridables{Depends: []string{verifWord("rpm.dep", 2)}}
 	orpm.Scripts.PostInstall = verifWord("rpm.post", 2)
@@ -135,6 +142,8 @@ func Verif_C13_GetOverride() {
 	} else {
 		v.Assert(info.Deb.Compression == bComp, "empty-format-block-field-keeps-the-base")
 	}
+	v.Assert(info.Deb.Fields["B"] == oField && info.Deb.Fields["A"] == bField, "map-field-merged-key-by-key")
+	v.Assert(info.Deb.Signature.KeyID != nil && *info.Deb.Signature.KeyID == oKey, "pointer-field-overridden")
 	if oUmask != 0 {
 		v.Assert(uint32(info.Umask) == oUmask, "umask-overridden")
 	} else {
